@@ -71,6 +71,14 @@ impl<'a, S: UtxoStore> InputSelector<'a, S> {
             .clone()
             .unwrap_or(CanonicalAssets::empty());
 
+        // the search space may have been topped up with utxos that match only some of the
+        // criteria; the address and the explicit references are hard constraints
+        let utxos: UtxoSet = utxos
+            .into_iter()
+            .filter(|x| criteria.address.as_ref().is_none_or(|a| &x.address == a))
+            .filter(|x| criteria.refs.is_empty() || criteria.refs.contains(&x.r#ref))
+            .collect();
+
         if criteria.support_many {
             Strategy::pick_many(utxos, &target)
         } else {
